@@ -68,17 +68,19 @@ Activity(q) ==
 
 \* a protocol opens a substream (TransportService::open_substream); `rem` = the remote opens one
 \* towards protocol q (the connection task takes the permit)
-Open(q, rem) ==
+\* `fb`: an inbound substream was negotiated under a fallback name of the protocol (the remote only speaks
+\* the old name); the keep-alive setting of a fallback name is that of its main protocol
+Open(q, rem, fb) ==
   /\ ~closed /\ nid < MaxSub /\ Strong          \* a permit can be obtained
   /\ nid' = nid + 1
-  /\ opening' = opening \cup {[q |-> q, id |-> nid, rem |-> rem, at |-> now]}
+  /\ opening' = opening \cup {[q |-> q, id |-> nid, rem |-> rem, fb |-> fb, at |-> now]}
   /\ IF q \in K /\ ~rem
        THEN /\ Activity(q)
             /\ hs' = [hs EXCEPT ![q] = "active"]                       \* try_upgrade
        ELSE UNCHANGED <<last, tmr, hs>>
   /\ IF q \in K THEN Obs([e |-> "open_begin", s |-> S, t |-> Ms(now), rem |-> rem]) ELSE UNCHANGED mon
   /\ UNCHANGED <<now, subs, closed>>
-  /\ Stim([a |-> IF rem THEN "ropen" ELSE "open", q |-> q, id |-> nid, at |-> now])
+  /\ Stim([a |-> IF rem THEN "ropen" ELSE "open", q |-> q, id |-> nid, fb |-> fb, at |-> now])
 
 \* TransportService::open_substream of a keep-alive protocol fails synchronously with ChannelClogged (the
 \* connection's command channel is full).  Order of the code: permit, substream_activity, try_upgrade,
@@ -101,7 +103,9 @@ Opened(o) ==
   /\ IF o.q \in K
        THEN /\ Activity(o.q)
             /\ hs' = [hs EXCEPT ![o.q] = "active"]
-            /\ subs' = subs \cup {[q |-> o.q, id |-> o.id]}
+            \* the lifetime permit is stored according to the keep-alive map of the connection's ProtocolSet
+            \* (main and fallback names); mutant: fallback names are looked up wrongly and get none
+            /\ subs' = IF Mutant = "fallback-no-permit" /\ o.rem /\ o.fb THEN subs ELSE subs \cup {[q |-> o.q, id |-> o.id]}
             /\ Obs([e |-> "open_ok", s |-> S, t |-> Ms(now), tb |-> Ms(o.at), rem |-> o.rem])
        ELSE /\ UNCHANGED <<last, tmr, hs, mon>>
             /\ subs' = IF Mutant = "ping-holds-permit" THEN subs \cup {[q |-> o.q, id |-> o.id]} ELSE subs
@@ -146,7 +150,7 @@ LoopExit ==
 
 Next ==
   \/ Tick \/ LoopExit
-  \/ \E q \in PP : TimerFires(q) \/ Open(q, FALSE) \/ (q \in K /\ Open(q, TRUE)) \/ OpenClogged(q)
+  \/ \E q \in PP : TimerFires(q) \/ Open(q, FALSE, FALSE) \/ (q \in K /\ \E fb \in BOOLEAN : Open(q, TRUE, fb)) \/ OpenClogged(q)
   \/ \E o \in opening : Opened(o) \/ OpenFails(o)
   \/ \E x \in subs : Drop(x)
 
